@@ -1206,6 +1206,7 @@ static void op_unary (V &v, const Op &op, OpResult &res)
       res.nalloc = g_nblk - blocks0;
       res.nreloc = ELEM_TRACKED ? (g_cnt_reloc - reloc0) : -1;
       res.has_chain = true;
+      g_ev_trunc = true;      // no element events were recorded for this call
     }
   else
     res.out = "skip";
